@@ -352,3 +352,33 @@ package expr
 // C04: the context's instant is in UTC (the process time zone does not leak into it)
 //@   ensures tOff(res.Now) == 0
 //@   fresh res
+//
+// ---- C02: a root type name selects exactly the input messages of that type -------------------
+// (a type name that matches nothing yields empty; matching items are kept in order; the items
+// kept are the input's own nodes)
+//@ func (e *TypeExpression) Evaluate(ctx, input) (res, err)
+//@   requires e != nil && validColl(input)
+//@   ensures err == nil && len(res) <= len(input)
+//@   ensures forall k int :: 0 <= k && k < len(res) ==> isProtoMsg(res[k]) && string(pbName(pbDesc(pbReflect(res[k])))) == e.Type
+//@   ensures (forall k int :: 0 <= k && k < len(input) ==> !(isProtoMsg(input[k]) && string(pbName(pbDesc(pbReflect(input[k])))) == e.Type)) ==> len(res) == 0
+//@   ensures (forall k int :: 0 <= k && k < len(input) ==> isProtoMsg(input[k]) && string(pbName(pbDesc(pbReflect(input[k])))) == e.Type) ==> len(res) == len(input) && (forall k int :: 0 <= k && k < len(input) ==> res[k] == input[k])
+//@   assigns nothing
+//@   loop 1 (i):
+//@     invariant len(output) <= i && own(output)
+//@     invariant forall k int :: 0 <= k && k < len(output) ==> isProtoMsg(output[k]) && string(pbName(pbDesc(pbReflect(output[k])))) == e.Type
+//@     invariant (forall k int :: 0 <= k && k < i ==> !(isProtoMsg(input[k]) && string(pbName(pbDesc(pbReflect(input[k])))) == e.Type)) ==> len(output) == 0
+//@     invariant (forall k int :: 0 <= k && k < i ==> isProtoMsg(input[k]) && string(pbName(pbDesc(pbReflect(input[k])))) == e.Type) ==> len(output) == i && (forall k int :: 0 <= k && k < i ==> output[k] == input[k])
+//
+// ---- C01/C03: path navigation is total on non-nil items and writes nothing --------------------
+// (thin contract: which elements are returned is descriptor data and is not specified here)
+//@ func (e *FieldExpression) Evaluate(ctx, input) (res, err)
+//@   requires e != nil && validColl(input)
+//@   ensures len(input) == 0 ==> err == nil && len(res) == 0
+//@   ensures !e.Permissive && (exists k int :: 0 <= k && k < len(input) && !isProtoMsg(input[k])) ==> err != nil
+//@   ensures err != nil ==> len(res) == 0
+//@   assigns nothing
+//@   loop 1 (i):
+//@     invariant own(output) && (i == 0 ==> len(output) == 0)
+//@     invariant !e.Permissive ==> (forall k int :: 0 <= k && k < i ==> isProtoMsg(input[k]))
+//@   loop 2:
+//@     invariant own(output)
